@@ -98,21 +98,35 @@ func (m *FilesMap) Dump() []byte {
 	return out.Bytes()
 }
 
+// sectionEnd returns the offset just past the first blank line ("\r\n\r\n" or
+// "\n\n", whichever comes first), or -1. One pass: searching the whole rest of
+// the manifest for each separator in turn made splitting quadratic in the
+// number of sections whenever one of the two never occurs.
+func sectionEnd(manifest []byte) int {
+	for off := 0; ; {
+		k := bytes.IndexByte(manifest[off:], '\n')
+		if k < 0 {
+			return -1
+		}
+		k += off
+		if k+1 < len(manifest) && manifest[k+1] == '\n' {
+			return k + 2
+		}
+		if k >= 1 && manifest[k-1] == '\r' && k+2 < len(manifest) && manifest[k+1] == '\r' && manifest[k+2] == '\n' {
+			return k + 3
+		}
+		off = k + 1
+	}
+}
+
 func splitManifest(manifest []byte) ([][]byte, bool) {
 	var malformed bool
 	sections := make([][]byte, 0)
 	for len(manifest) != 0 {
-		i1 := bytes.Index(manifest, []byte("\r\n\r\n"))
-		i2 := bytes.Index(manifest, []byte("\n\n"))
-		var idx int
-		switch {
-		case i1 >= 0 && (i2 < 0 || i1 < i2):
-			idx = i1 + 4
-		case i2 >= 0:
-			// (line endings may differ from section to section: take whichever
-			// separator comes first)
-			idx = i2 + 2
-		default:
+		// (line endings may differ from section to section: take whichever
+		// separator comes first)
+		idx := sectionEnd(manifest)
+		if idx < 0 {
 			// If there is not a proper 2x line ending,
 			// then it's technically not valid but we can sign it anyway
 			// as long as it gets rewritten with correct endings.
